@@ -2073,8 +2073,9 @@ func (g *gen) fillN(n parquet.Node, v reflect.Value, path string) {
 		}
 	case reflect.Slice:
 		if v.Type().Elem().Kind() == reflect.Uint8 {
-			if g.nullish(path) {
-				if g.rng.Intn(2) == 0 && (n == nil || n.Type().Kind() != parquet.FixedLenByteArray) {
+			fixed := n != nil && n.Leaf() && n.Type().Kind() == parquet.FixedLenByteArray
+			if g.nullish(path) && !(fixed && !n.Optional()) { // a required fixed size column has no value for a nil slice
+				if g.rng.Intn(2) == 0 && !fixed {
 					v.Set(reflect.MakeSlice(v.Type(), 0, 0))
 				}
 				return
@@ -2486,11 +2487,11 @@ func runC03(c *core.Ctx) {
 	t0 := time.Now()
 	var cats []*cat
 	for _, ct := range catalogue() {
+		if only := os.Getenv("C03_ONLY"); only != "" && !strings.Contains(","+only+",", ","+ct.name+",") {
+			continue // debugging aid
+		}
 		if ct.broken != "" {
 			c.Violation("schema-panic:"+ct.name, fmt.Sprintf("type %s: building the schema / the catalogue entry panicked: %s", ct.name, ct.broken), ct.name)
-			continue
-		}
-		if only := os.Getenv("C03_ONLY"); only != "" && !strings.Contains(","+only+",", ","+ct.name+",") {
 			continue
 		}
 		cats = append(cats, ct)
